@@ -211,6 +211,14 @@ class IntervalTier(textgrid_tier.TextgridTier):
 
     def deleteEntry(self, entry: Interval) -> None:
         """Removes an entry from the entries"""
+        # Entries compare equal within a tolerance.  Prefer an exact match so
+        # that a different, nearly identical entry is never removed by mistake
+        if isinstance(entry, Interval):
+            for i, existingEntry in enumerate(self._entries):
+                if tuple(existingEntry) == tuple(entry):
+                    self._entries.pop(i)
+                    return
+
         self._entries.pop(self._entries.index(entry))
 
     def difference(self, tier: "IntervalTier") -> "IntervalTier":
